@@ -11,17 +11,17 @@ Definition gkq_assemble := gk_assemble Qc spq_ops.
 
 (** the five matrices (mass, k2PhiPsi, PhiPsi, dPhidPsi, dPhiPsi) as scipy.sparse.diags builds them
     from the diagonal storage, rows 0 .. nb-1 *)
-Definition gkq_band (knots : list Qc) (p nc nq : nat) (pts : list (list Qc)) (wts : list Qc) (mf : Qc)
+Definition gkq_band (knots : list Qc) (p nc nq : nat) (pts : list (list Qc)) (wts : list Qc) (mf : list Qc)
   (At Bt Ct Dt Et : list (list Qc)) : sp_res (list (list (list Qc))) :=
   sp_bind (gkq_assemble knots p nc nq pts wts mf At Bt Ct Dt Et) (fun S =>
   SpOk (map (gkq_full p (nc + p)) [gka_mass Qc S; gka_k2 Qc S; gka_phipsi Qc S; gka_dd Qc S; gka_d1 Qc S])).
 
 (** the same five matrices as dense double sums over all cells (no overlap restriction) *)
-Definition gkq_dense (knots : list Qc) (p nc nq : nat) (pts : list (list Qc)) (wts : list Qc) (mf : Qc)
+Definition gkq_dense (knots : list Qc) (p nc nq : nat) (pts : list (list Qc)) (wts : list Qc) (mf : list Qc)
   (At Bt Ct Dt Et : list (list Qc)) : sp_res (list (list (list Qc))) :=
   sp_bind (gk_table Qc spq_ops knots p pts) (fun T =>
   if gk_spans_ok Qc p T nc nq then
-    let W := fun (c q : nat) => (nth q wts (Q2Qc 0) * mf)%Qc in
+    let W := fun (c q : nat) => (nth q wts (Q2Qc 0) * nth c mf (Q2Qc 0))%Qc in
     SpOk (map (fun k => map (fun a => map (fun b =>
             gk_dense Qc spq_ops nc nq (gk_phi Qc spq_ops p T) W (gk_at Qc spq_ops pts) (gk_at Qc spq_ops At)
               (gk_at Qc spq_ops Bt) (gk_at Qc spq_ops Ct) (gk_at Qc spq_ops Dt) (gk_at Qc spq_ops Et) k a b)
@@ -29,14 +29,14 @@ Definition gkq_dense (knots : list Qc) (p nc nq : nat) (pts : list (list Qc)) (w
   else SpArgErr).
 
 (** one mode, discrete right-hand side: coefficients of phi and its values at the nodes rs *)
-Definition gkq_solve (knots : list Qc) (p nc nq : nat) (pts : list (list Qc)) (wts : list Qc) (mf : Qc)
+Definition gkq_solve (knots : list Qc) (p nc nq : nat) (pts : list (list Qc)) (wts : list Qc) (mf : list Qc)
   (At Bt Ct Dt Et : list (list Qc)) (lN uN : list Z) (m : Z) (buf rho rs : list Qc)
   : sp_res (list Qc * list Qc) :=
   sp_bind (gkq_assemble knots p nc nq pts wts mf At Bt Ct Dt Et) (fun S =>
   sp_bind (gk_solve_mode Qc spq_ops S lN uN m buf rho) (fun c =>
   sp_bind (gk_eval Qc spq_ops knots p c rs) (fun v => SpOk (c, v)))).
 
-Definition gkq_solve_func (knots : list Qc) (p nc nq : nat) (pts : list (list Qc)) (wts : list Qc) (mf : Qc)
+Definition gkq_solve_func (knots : list Qc) (p nc nq : nat) (pts : list (list Qc)) (wts : list Qc) (mf : list Qc)
   (At Bt Ct Dt Et : list (list Qc)) (lN uN : list Z) (m : Z) (buf : list Qc) (rhot : list (list Qc)) (rs : list Qc)
   : sp_res (list Qc * list Qc) :=
   sp_bind (gkq_assemble knots p nc nq pts wts mf At Bt Ct Dt Et) (fun S =>
@@ -45,7 +45,7 @@ Definition gkq_solve_func (knots : list Qc) (p nc nq : nat) (pts : list (list Qc
 
 (** one solver object: the five matrices, then every work item through the shared buffer as the loops
     of solveEquation / solveEquationForFunction do, each with its values at the nodes rs *)
-Definition gkq_case (knots : list Qc) (p nc nq : nat) (pts : list (list Qc)) (wts : list Qc) (mf : Qc)
+Definition gkq_case (knots : list Qc) (p nc nq : nat) (pts : list (list Qc)) (wts : list Qc) (mf : list Qc)
   (At Bt Ct Dt Et : list (list Qc)) (lN uN : list Z) (buf rs : list Qc) (work : list (gk_work Qc))
   : sp_res (list (list (list Qc)) * list (list Qc * list Qc)) :=
   sp_bind (gkq_assemble knots p nc nq pts wts mf At Bt Ct Dt Et) (fun S =>
